@@ -269,9 +269,11 @@ func c08setup(t *testing.T, sc c08scenario, out *c08obs) func(c *vsched.Ctl) fun
 			wasBlocked := false
 			driverMode := uint64(0)
 			for i, th := range r.Sched {
+				// the scheduling point this step released the thread from (recorded by the controller when it
+				// released it, not read back from a later status)
 				passed := "start"
-				if p, ok := prev[th]; ok {
-					passed = p.Label
+				if i < len(r.Passed) && r.Passed[i] != "" {
+					passed = r.Passed[i]
 				}
 				emit := passed != "start" && !strings.HasSuffix(passed, ":start")
 				if th == "driver" {
@@ -303,7 +305,7 @@ func c08setup(t *testing.T, sc c08scenario, out *c08obs) func(c *vsched.Ctl) fun
 				if th != "consumer" && wasBlocked && consNow.State != "blocked" {
 					out.sched = append(out.sched, 1)
 				}
-				wasBlocked = consNow.State == "blocked"
+				wasBlocked = consNow.State == "blocked" && strings.Contains(consNow.Label, "WaitForItem")
 			}
 			for _, st := range r.Final {
 				if st.State == "at" && !st.Enabled {
